@@ -73,10 +73,14 @@ def prov_pipe(ctx):
     if ok:
         c = T.sx_calls(lp[0][2], "data::encode_data_internal")[0]
         a = c[2]
-        ok = is_var(a[0], "data") and _field_of_self(a[1], "symbol_list") and is_var(a[2], "eci") and _field_of_self(a[3], "encodation_types") \
-            and _field_of_self(a[4], "use_macros") and _field_of_self(a[5], "fnc1_start")
+        ok_opt = {nm: bool(_field_of_self(a[i], nm)) for i, nm in ((1, "symbol_list"), (3, "encodation_types"), (4, "use_macros"), (5, "fnc1_start"))}
+        ok = is_var(a[0], "data") and is_var(a[2], "eci") and not any(is_var(y, "data") or is_var(y, "eci") for x in (a[1], a[3], a[4], a[5]) for y in T.sx_walk(x))
         cwn, szn = [n.split("#")[0] for n in lp[0][1]]
-    obs.append(Ob(r, "encode:data", ok, "encode_eci encodes `data` with the builder's own symbol list, modes, macro and FNC1 options", site=site))
+    else:
+        ok_opt = {}
+    obs.append(Ob(r, "encode:data", ok, "encode_eci encodes `data` itself, with the caller's ECI; the options do not depend on the data", site=site))
+    for nm in ("symbol_list", "encodation_types", "use_macros", "fnc1_start"):
+        obs.append(Ob(r, "encode:option:" + nm, ok_opt.get(nm, False), "encode_eci passes the builder's own `%s` to the encoder" % nm, site=site))
     # a plain move `let mut codewords = data_codewords;` gives the same value another name
     alias = {s0[1].split("#")[0]: s0[3][1] for s0 in sts if s0[0] == "let" and s0[3][0] == "var"}
 
